@@ -7,7 +7,7 @@ PID = "C28"
 READY = False
 MANIFEST = {
     "level_text": "Lean 4 theorems about the model of parse_request / handle_store / handle_fetch / allow_store_request / "
-                  "allow_stream_fetch. C28.admit: for every connection byte stream, configuration and daemon state, a STORE answered "
+                  "allow_stream_fetch. C28.admit_request / admit_connection: for every connection byte stream, configuration and daemon state, a STORE answered "
                   "OK_STORE had a declared PAYLOAD-LENGTH <= cap, a TTL inside [min, max] (after the uint64 -> int64 reinterpretation) "
                   "and, when store PoW is enabled, a nonce for which store_pow_valid(sha256(payload), size, sanitised PATH, nonce) holds "
                   "(sha256 arbitrary function; the validator is C19's model); C28.too_large_reads_no_body: a header block declaring more "
@@ -304,7 +304,7 @@ def spec() -> Spec:
         generate=generate,
         extract=extract,
         nontrivial=nontrivial,
-        budget={"quick": 144, "thorough": 2400},
+        budget={"quick": 144, "thorough": 1600},
         search_budget={"quick": 500, "thorough": 6000},
         per_case_timeout=90.0,
         rule="8 shapes in rotation: payload sizes around a lowered cap (cap-1, cap, cap+1, 0, 2^32..2^64, lying lengths, duplicate "
